@@ -478,6 +478,27 @@ def run(ctx):
   ctx.floor("ORD-settings", "locals that reach a region style", len(result_vars), 7)
   for var in result_vars:
     shape.check_final_before_use(ctx, gr, var)
+  # dependency order of the setting blocks: a block that reads a result local which a LATER block replaces - while that
+  # later block needs nothing this one produces - has consumed a value that was not final (`position` anchoring with the
+  # extent before `size` sets it)
+  rset = set(result_vars)
+  tops = [st for st in gr.node.body if isinstance(st, ast.If)]
+  def reads(st):
+    return {n.id for n in ast.walk(st) if isinstance(n, ast.Name) and isinstance(n.ctx, ast.Load) and n.id in rset}
+  def writes(st):
+    return {n.id for n in ast.walk(st) if isinstance(n, ast.Name) and isinstance(n.ctx, ast.Store) and n.id in rset}
+  npairs = 0
+  for a_i, sa in enumerate(tops):
+    for sb in tops[a_i + 1:]:
+      stale = reads(sa) & writes(sb)
+      if not stale:
+        continue
+      npairs += 1
+      independent = not (reads(sb) & writes(sa))
+      ctx.check(not independent, "ORD-settings", f"{gr.qualname}|block at `{short(sa.test, 30)}` before block at `{short(sb.test, 30)}` ({', '.join(sorted(stale))})", ctx.where(gr.module, sb),
+                "the later block builds on what the earlier one produced",
+                f"the block guarded by `{short(sa.test, 40)}` reads {sorted(stale)}, which the later block guarded by `{short(sb.test, 40)}` replaces without needing anything from the earlier one: "
+                "the earlier block worked with a value that was not final yet (the blocks are in the wrong order)")
   nt2 = shape.check_state_buffers(ctx, ix.func("ttconv.vtt.tokenizer:CueTextTokenizer"), buffers=("buffer",),
                                  continuation={("start_tag_annot", "annot_cref"): "buffer", ("annot_cref", "start_tag_annot"): "buffer"})
   ctx.floor("TYPESTATE-buffer", "state transitions sharing an accumulator", nt2, 2)
